@@ -144,10 +144,10 @@ def generate(ctx, acc):
             for tcxx, tn, nb in TYPES:
                 n = regb // nb
                 if acc.get((acxx, tcxx, "swizzle_ct")):
-                    for m in swizzle_masks(n, rng, ctx.q(3, 60), not ctx.quick)[: ctx.q(22, 100000)]:
+                    for m in swizzle_masks(n, rng, ctx.q(3, 60), not ctx.quick)[: ctx.q(30, 100000)]:
                         out.append('PERM_SWZ(%s, "%s", %s)' % (tcxx, name("swizzle_ct", m), ", ".join(map(str, m))))
                 if acc.get((acxx, tcxx, "shuffle")):
-                    for m in shuffle_masks(n, rng, ctx.q(3, 60), not ctx.quick)[: ctx.q(24, 100000)]:
+                    for m in shuffle_masks(n, rng, ctx.q(3, 60), not ctx.quick)[: ctx.q(48, 100000)]:
                         out.append('PERM_SHF(%s, "%s", %s)' % (tcxx, name("shuffle", m), ", ".join(map(str, m))))
                 if acc.get((acxx, tcxx, "slide")):
                     for k in counts(0, regb, {nb, 2 * nb, 3, 8, 15, 16, 17, 31, 32, 33, regb // 2, regb - nb, regb - 1}, ctx.quick, rng):
